@@ -38,6 +38,25 @@ theorem delete_refused_changes_nothing (g : G) (sub : List Nat) (r : Ref) (hr : 
     delete g sub = .error .notImplemented :=
   delete_refused g sub r hr ht hk
 
+/-- A member that is the root of its own fragment file makes the deletion raise before anything is entered: no new
+graph, whatever the rest of the request is (fix `refuse to delete the root of a fragment file before anything is removed`). -/
+theorem delete_of_fragment_root_refused (roots parentless : List Nat) (k : Except Err G) (n : Nat)
+    (hn : n ∈ roots) (hp : n ∈ parentless) : checked roots parentless k = .error .notImplemented := by
+  unfold checked
+  have : roots.any (· ∈ parentless) = true := List.any_eq_true.mpr ⟨n, hn, by simpa using hp⟩
+  simp [this]
+
+/-- … and without such a member the check is transparent. -/
+theorem delete_checked_transparent (roots parentless : List Nat) (k : Except Err G)
+    (h : ∀ n ∈ roots, n ∉ parentless) : checked roots parentless k = k := by
+  unfold checked
+  have : roots.any (· ∈ parentless) = false := by
+    rw [List.any_eq_false]; intro n hn; simpa using h n hn
+  simp [this]
+
+example : (checked [1, 2] [2] (delete { elems := [1, 2], refs := [] } [1])).toOption.isNone = true := by decide
+example : (checked [1] [2] (delete { elems := [1, 2], refs := [] } [1])).toOption.map (·.elems) = some [2] := by decide
+
 /-- References that survive keep their relative order (lists are filtered, never rebuilt). -/
 theorem delete_keeps_order (g g' : G) (sub : List Nat) (h : delete g sub = .ok g') :
     g'.refs.Sublist g.refs := by
